@@ -285,6 +285,11 @@ class StepGen:
                     nd = doc.node_at(f)
                     if nd is not None and nd.marks:
                         m = r.choice(nd.marks)
+                        if m.attrs and r.random() < 0.4:
+                            # a mark of the same type as one the node carries, with other attribute values
+                            other = {k: (v + "2" if isinstance(v, str) else v) for k, v in m.attrs.items()}
+                            if other != m.attrs:
+                                m = m.type.create(other)
                 except Exception:  # noqa: BLE001
                     pass
             return (AddNodeMarkStep if kind == "addNodeMark" else RemoveNodeMarkStep)(f, m)
